@@ -17,13 +17,15 @@ def stage_spec(d):
             shutil.copy(os.path.join(SPEC, f), os.path.join(d, f))
 
 
-def run_tlc(d, module, cfg, env=None, workers=1, timeout=900, extra=(), heap="4g", deque=False, tag=""):
+def run_tlc(d, module, cfg, env=None, workers=1, timeout=900, extra=(), heap="4g", deque=False, tag="", stop_after=None):
     """returns (returncode, stdout text, seconds)"""
     e = dict(os.environ)
     e.update(env or {})
     opts = "-Xmx%s -Xss512m -XX:+UseParallelGC" % heap
     if deque:
         opts += " -Dtlc2.tool.queue.IStateQueue=StateDeque"
+    if stop_after:
+        opts += " -Dtlc2.TLC.stopAfter=%d" % int(stop_after)      # TLC ends the search itself and reports what it covered
     e["JAVA_TOOL_OPTIONS"] = opts
     meta = os.path.join(d, "meta-" + module + tag)
     cmd = ["timeout", str(timeout), "java", "-cp", "/opt/veriftools/tla/tla2tools.jar:/opt/veriftools/tla/CommunityModules-deps.jar",
@@ -36,10 +38,9 @@ def run_tlc(d, module, cfg, env=None, workers=1, timeout=900, extra=(), heap="4g
 
 def parse_stats(out):
     st = {}
-    m = re.search(r"(\d+) states generated, (\d+) distinct states found", out)
-    if m:
-        st["generated"] = int(m.group(1))
-        st["distinct"] = int(m.group(2))
+    ms = re.findall(r"(\d+) states generated, (\d+) distinct states found, (\d+) states left on queue", out)
+    if ms:
+        st["generated"], st["distinct"], st["left_on_queue"] = (int(x) for x in ms[-1])
     m = re.search(r"The depth of the complete state graph search is (\d+)", out)
     if m:
         st["depth"] = int(m.group(1))
